@@ -17,6 +17,16 @@ CLAIMED = {
          "TLA+ accumulator model + TLC (safety, progress measure, liveness on N=2); edge replay; stream traces"),
  "C13": ("5.C13", "fixle/fixbe shapes in Wire.tla; MC_Fix checks the entire 16-bit domain and structured wider values; recorded events for the whole 16-bit domain of u16/i16 x le/be, single-byte-nonzero/extreme/random values for all 8 types through all entry pairings, truncations, and a derived struct with #[serde(with)] validated by TLC.",
          "TLA+ Enc/Dec for fixed-width shapes; TLC validates recorded adapter events (exhaustive for 16 bits)"),
+ "C05": ("5.C05", "SerPipe.tla: the flavour pipeline as a machine over a bounded store, model-checked for every message (<=5..7 bytes), every block/push emit choice, every capacity and the stacks plain/COBS/CRC/CRC-in-COBS: never a write at an index >= cap, success iff cap >= Len(Full), output = Full. Real code: for each (value, stack) the outcome at every capacity 0..len+2 for slice (guard page + canary), heapless, growable, Extend and size storages is validated by TLC against the threshold rule.",
+         "TLA+ pipeline machine + TLC (all capacities); recorded per-capacity outcomes validated against the spec"),
+ "C06": ("5.C06", "Cobs.tla: functional COBS by groups and the streaming encoder machine shown equal (scaled MAXRUN, all messages, all capacities), frame shape invariants (one zero, last; decodes back; length formula as upper bound, exact for zero-free messages). Real code: COBS-stack outputs incl. run lengths around 254/508/762 compared with Framed(Enc); frame sequences consumed frame by frame with take_from_bytes_cobs validated (value, remainder offset, buffer after).",
+         "TLA+ COBS spec + TLC; recorded encoder outputs and frame-by-frame decoding validated"),
+ "C07": ("5.C07", "In-place decode_raw machine model-checked on every byte string <=7..8 over 0..MAXRUN+1 (scaled): read/write index invariants, failure iff a code points past the frame, result = functional decoder, bytes behind the result intact. Real code: every string <=6..8 over {00,01,02,03,FF} x 7 targets, corrupted/truncated frames, random bytes through from/take_from_bytes_cobs on guard-page buffers validated against TakeFromCobs/FromCobs.",
+         "TLA+ in-place decoder machine + TLC (exhaustive short strings); recorded decodes validated"),
+ "C10": ("5.C10", "Crc.tla (Rocksoft model on bit vectors; parameters read from the crate and self-checked against the catalogue). MC_Crc: for CRC-8/16 every payload burst <= width (in processing bit order) and every checksum-only damage is rejected; block and byte digest updates agree. Real code: CRC-stack outputs for 13 algorithms / 5 widths compared with Enc o LE(crc); per sampled frame every truncation, single-bit flip, bursts, checksum-only and random damage decoded through from/take_from_bytes_uN and judged by the converse clause.",
+         "TLA+ CRC model + TLC detection check; recorded CRC encode/decode events validated (exhaustive flips per frame)"),
+ "C20": ("5.C20", "SerPipe!Full = fold of the layer transformations in stack order, independent of storage; MC_SerPipe explores every mix of push/extend emit modes through every stack. Real code: CRC-in-COBS, COBS, CRC over slice/heapless/growable validated against Full; a recording user flavour (with and without block override, bare and under CRC) must receive exactly the plain encoding, then finalize.",
+         "TLA+ layer composition + TLC; recorded stacked outputs and user-flavour call logs validated"),
 }
 PENDING = "check under construction in this session (see DESIGN.md section 8 for the order of construction)"
 m = {
